@@ -173,6 +173,15 @@ func (s *Store) ReadGroup(ctx context.Context, req *datatypes.ReadGroupRequest) 
 		return nil, err
 	}
 
+	// The cursors panic on an aggregate they do not know: refuse it here.
+	if req.Aggregate != nil {
+		switch req.Aggregate.Type {
+		case datatypes.AggregateTypeSum, datatypes.AggregateTypeCount:
+		default:
+			return nil, errors.New("invalid aggregate type: " + req.Aggregate.Type.String())
+		}
+	}
+
 	var shardIDs []uint64
 	if sIDs, ok := ctx.Value(coordinator.ShardIDsKey).([]uint64); ok {
 		shardIDs = sIDs
